@@ -98,6 +98,10 @@ def build_inputs(tier):
               "x = a + (b = c) * d\n", "print(a b)\n", "x = [1, 2 3]\n", "f(**a, *b)\n", "f(x for x in y, 1)\n", "a.b.c(d e)[f]\n", "x = a + b * (c d)\n", "q = (yield = 1)\n", "t = (*a)\n"]:
         cases.append((s, "exec", None))
         cases.append(("ok = 1\n" + s, "exec", None))
+    # long left-associative chains: the parser builds them iteratively (no deep recursion), so whatever the trace does with the
+    # RESULT of a rule must not be deeper either
+    for s in ["x = " + " + ".join(["1"] * 1200) + "\n", "y = a" + ".b" * 1200 + "\n", "z = f" + "()" * 1100 + "\n", "w = a" + "[0]" * 1100 + "\n"]:
+        cases.append((s, "exec", None))
     for s, m in list(base):
         cases.append((s, m, None))
         if r.random() < 0.5:
